@@ -629,7 +629,7 @@ class Context:
 				# Fast path for those functions that return values
 				return e.value()
 		else:
-			if (isinstance (val, ContextVariable)): result = val.realValue
+			if (isinstance (val, ContextVariable)): result = val.rawValue ()
 			else: result = val
 		return result
 		
